@@ -4,7 +4,10 @@ package sm2_test
 
 import (
 	"encoding/json"
+	"errors"
 	"fmt"
+	"io"
+	"math/big"
 	"testing"
 	"time"
 
@@ -76,8 +79,80 @@ func c17sm2Scenarios() []*sched.Scenario {
 		}
 		return [][]sched.Op{{{"ZA", za}, {"sm3", h}}, {{"SignZa", signza}, {"GenerateKey", gen}}, {{"sm3", h}, {"Sign", sign}}}
 	}})
+	// S6: values with leading zero bytes (a short r when signing, a short t = r+s when verifying: they take the padding
+	// paths) and, before the threads start, calls that FAIL (randomness that errors at once / after 16 bytes, an invalid
+	// key, an off-curve public key): whatever a failed call leaves behind is shared by the concurrent calls after it
+	{
+		dI := bi(d)
+		small := func(tag string) *big.Int { return bi(append([]byte{0, 0}, vx.Fill(tag, 30)...)) }
+		// signature with short r and short t: r small, s = t - r with t small
+		rv := small("c17zr")
+		tv := small("c17zt")
+		sv := modN(new(big.Int).Sub(tv, rv))
+		kz, ez, ok := c17solve(rv, sv, dI)
+		if !ok {
+			panic("harness: cannot solve the short-value signature")
+		}
+		out = append(out, &sched.Scenario{Name: "S6-failed-calls-then-short-values", Build: func(x *sched.Exec) [][]sched.Op {
+			dd, pxx, pyy := append([]byte{}, d...), append([]byte{}, px...), append([]byte{}, py...)
+			eez, rz, sz := b32(ez), b32(rv), b32(sv)
+			for n, b := range map[string][]byte{"priv": dd, "pubx": pxx, "puby": pyy, "digestz": eez, "rz": rz, "sz": sz} {
+				share(x, n, b)
+			}
+			// priming: failing calls, run before any thread exists
+			sm2.SignHashed(failAfter(0), dd, eez)
+			sm2.SignHashed(failAfter(16), dd, eez)
+			sm2.SignHashed(stream(b32(bigN), nil), dd, eez) // one rejected candidate, then the stream ends
+			sm2.SignHashed(stream(k1), make([]byte, 32), eez)
+			sm2.VerifyHashed(pyy, pxx, eez, rz, sz)
+			sm2.GenerateKey(failAfter(5))
+			signz := func() string {
+				a, b, err := sm2.SignHashed(stream(b32(kz)), dd, eez)
+				return fmt.Sprintf("%x %x %v", a, b, err)
+			}
+			sign := func(k []byte) func() string {
+				return func() string {
+					a, b, err := sm2.SignHashed(stream(k), dd, eez)
+					return fmt.Sprintf("%x %x %v", a, b, err)
+				}
+			}
+			verifyz := func() string { ok, err := sm2.VerifyHashed(pxx, pyy, eez, rz, sz); return fmt.Sprint(ok, err) }
+			return [][]sched.Op{{{"SignHashed(short r)", signz}, {"VerifyHashed(short t)", verifyz}}, {{"VerifyHashed(short t)", verifyz}, {"SignHashed", sign(k2)}}, {{"SignHashed", sign(k1)}, {"SignHashed(short r)", signz}}}
+		}})
+	}
 	return out
 }
+
+// c17solve: (k, e) for a wanted (r, s) under key d: k = s(1+d) + r d, e = r - x([k]G)
+func c17solve(rv, sv, d *big.Int) (k, e *big.Int, ok bool) {
+	k = modN(new(big.Int).Add(new(big.Int).Mul(sv, new(big.Int).Add(d, bigOne)), new(big.Int).Mul(rv, d)))
+	if k.Sign() == 0 || rv.Sign() == 0 || sv.Sign() == 0 || modN(new(big.Int).Add(rv, k)).Sign() == 0 || modN(new(big.Int).Add(rv, sv)).Sign() == 0 {
+		return nil, nil, false
+	}
+	e = modN(new(big.Int).Sub(rv, sm2ref.BaseMul(k).X))
+	return k, e, true
+}
+
+type failingReader struct {
+	n int
+}
+
+func (f *failingReader) Read(p []byte) (int, error) {
+	if f.n <= 0 {
+		return 0, errors.New("injected randomness failure")
+	}
+	k := f.n
+	if k > len(p) {
+		k = len(p)
+	}
+	for i := 0; i < k; i++ {
+		p[i] = 0x42
+	}
+	f.n -= k
+	return k, nil
+}
+
+func failAfter(n int) io.Reader { return &failingReader{n} }
 
 type c17case2 struct {
 	Scenario string
